@@ -19,6 +19,27 @@ CHECKS = {
     "C03": dict(cat="other", tech="per projected model of the real CNF a SAT query for a second auxiliary extension (must be unsat); Lemma DE over builder contracts",
                 text="Per design of D and per projected model of the compiled formula, a second extension to the auxiliary variables is refuted by SAT. The unbounded argument is Lemma DE over the `.defs` obligations of C10/C12 and the Tseitin contracts of C11.",
                 note=SYS_NOTE, ref="4.3 C03"),
+    "C04": dict(cat="exploration", tech="RandomGen outputs vs reference predicate + exhaustive check per design that the library's acceptance tests (rejection criteria) never pass an invalid candidate",
+                text="Bounded exploration of D. Besides judging what RandomGen returns, every candidate sequence of each design is run through the library's own acceptance tests (the ones RandomGen rejects by): none that is definitely invalid may pass. That obligation does not depend on sampler luck.",
+                note=SYS_NOTE, ref="4.3 C04"),
+    "C06": dict(cat="exploration", tech="exhausted RandomGen vs brute-force valid set with multiplicities; metrics solution_count on no-rejection designs",
+                text="Bounded exploration of D: RandomGen asked for more than exist returns exactly the valid set (each once, times documented copy multiplicity) and stops; solution_count equals the number of valid sequences on single-CrossBlock designs without rejection-checked constraints or complex windows.",
+                note=SYS_NOTE + " Termination of the rejection loop is not proved: a worker exceeding the wall-clock limit is undecided.", ref="4.3 C06"),
+    "C09": dict(cat="exploration", tech="requested-vs-returned counts and per-call multiplicities for IterateSATGen, RandomGen, IterateGen over D",
+                text="Bounded exploration: five requested counts around the number of available solutions per design and strategy; returned == min(requested, available); no sequence more often than the copy multiplicity of weighted levels outside the crossing.",
+                note="Bounded design space; 'available' is the strategy's own exhausted count (its exactness is C02/C06).", ref="4.3 C09"),
+    "C16": dict(cat="other", tech="trials_per_sample vs independently computed documented trial count per design; lengths of sequences from every strategy; wp proofs of __trials_required_for_crossing and applies_to_trial",
+                text="Per design of D the reported trial count equals an independent implementation of the documented arithmetic, and every strategy (incl. SMGen when it does not refuse) returns exactly that many entries per user factor. The counting helper __trials_required_for_crossing is proved (partial correctness) to return the smallest trial count containing `crossing_size` applicable trials; applies_to_trial is proved to be the documented start/stride progression.",
+                note=SYS_NOTE + " Termination of the counting loop is not proved.", ref="4.3 C16"),
+    "C17": dict(cat="exploration", tech="sample_mismatch_experiment on every candidate sequence of each design vs three-valued reference predicate",
+                text="Bounded exploration: for each design of D every candidate sequence (whole space up to the stated limit) is checked by the real function; definitely valid must give {}, definitely invalid must not.",
+                note=SYS_NOTE + " Candidates carry correct derived levels; designs whose crossing is unsatisfiable by construction are not judged.", ref="4.3 C17"),
+    "C25": dict(cat="other", tech="Nest designs: compiled-formula model sets (SAT) and both samplers vs reference reading; associativity by set equality",
+                text="Curated Nest designs (outer/inner 2-3 levels, inner / own constraints, uncrossed outer factor, nested Nest): trial count, per-group constancy of outer crossed factors, outer crossing over groups and inner crossing/constraints within groups are all part of the reference predicate the model sets are compared with; Nest(Nest(a,b),c) and Nest(a,Nest(b,c)) must have equal solution sets.",
+                note=SYS_NOTE + " Constraints on the OUTER block other than Exclude are outside the reference reading.", ref="4.3 C25"),
+    "C26": dict(cat="other", tech="wp proof of map_block_trial_ranges (window enumeration for all inputs) + composed designs: model sets and samplers vs reference reading with per-repetition / global scoping",
+                text="The window mechanism is proved for all inputs (each window is [s0+j(L-p), min(s0+j(L-p)+L, T)), all non-preamble trials covered, loop terminates). Over the composed designs of D (each constraint class on the inner block and on the combinator, partial last repetitions, preambles) the compiled formula's model set and both samplers equal the documented sets.",
+                note=SYS_NOTE, ref="4.2 / 4.3 C26"),
     "C07": dict(cat="exploration", tech="relational: exhausted IterateSATGen set == exhausted RandomGen set per design (no oracle)",
                 text="Bounded exploration of D: both samplers are exhausted on every design both accept and the sets of sequences must be equal by level names.",
                 note="Bounded design space; designs on which a sampler is not exhausted within the limit are reported undecided.", ref="4.3 C07"),
